@@ -641,4 +641,245 @@ theorem elimLoop_iso (K0 : Set ℕ) : ∀ (fuel : Nat) (rels : List (List Int)) 
         presentedEquivOfEq (by rw [hKeq, normRels_ncl])
       exact (e1.trans e2).trans e3
 
+/-! ### renumbering the remaining generators -/
+
+theorem getD_eq_getElem' (l : List Nat) (n : Nat) (h : n < l.length) : l.getD n 0 = l[n] :=
+  (List.getElem_eq_getD 0).symm
+
+theorem zipIdx_fold_other (f : Array Nat → Nat × Nat → Array Nat)
+    (hf : ∀ a x, f a x = a.setIfInBounds x.1 (x.2 + 1)) : ∀ (l : List Nat) (a : Array Nat) (off k : Nat),
+    k ∉ l → ((l.zipIdx off).foldl f a).getD k 0 = a.getD k 0 ∧
+      ((l.zipIdx off).foldl f a).size = a.size
+  | [], a, _, _, _ => ⟨rfl, rfl⟩
+  | x :: l, a, off, k, hk => by
+    rw [List.zipIdx_cons, List.foldl_cons, hf]
+    have hkx : k ≠ x := fun e => hk (e ▸ List.mem_cons_self)
+    obtain ⟨h1, h2⟩ := zipIdx_fold_other f hf l (a.setIfInBounds x (off + 1)) (off + 1) k
+      (fun h => hk (List.mem_cons_of_mem _ h))
+    refine ⟨?_, by rw [h2, Array.size_setIfInBounds]⟩
+    rw [h1]
+    simp only [Array.getD_eq_getD_getElem?, Array.getElem?_setIfInBounds]
+    have : ¬ x = k := fun e => hkx e.symm
+    simp [this]
+
+theorem zipIdx_fold_get (f : Array Nat → Nat × Nat → Array Nat)
+    (hf : ∀ a x, f a x = a.setIfInBounds x.1 (x.2 + 1)) : ∀ (l : List Nat) (a : Array Nat) (off : Nat),
+    l.Nodup → (∀ x ∈ l, x < a.size) → ∀ m (hm : m < l.length),
+    ((l.zipIdx off).foldl f a).getD l[m] 0 = off + m + 1
+  | [], _, _, _, _, m, hm => by simp at hm
+  | x :: l, a, off, hnd, hsz, m, hm => by
+    rw [List.zipIdx_cons, List.foldl_cons, hf]
+    rw [List.nodup_cons] at hnd
+    cases m with
+    | zero =>
+      simp only [List.getElem_cons_zero]
+      rw [(zipIdx_fold_other f hf l _ (off + 1) x hnd.1).1]
+      have hx := hsz x List.mem_cons_self
+      simp only [Array.getD_eq_getD_getElem?, Array.getElem?_setIfInBounds]
+      simp [hx]
+    | succ m =>
+      simp only [List.getElem_cons_succ]
+      have := zipIdx_fold_get f hf l (a.setIfInBounds x (off + 1)) (off + 1) hnd.2
+        (fun y hy => by rw [Array.size_setIfInBounds]; exact hsz y (List.mem_cons_of_mem _ hy))
+        m (by simpa using hm)
+      rw [this]
+      omega
+
+/-- **renumbering**: if `keep` lists the live generators and `idx (keep[m]) = m + 1`, renaming every
+    letter `±k` to `±idx k` gives an isomorphic group on the generators `1 … keep.length` -/
+theorem renumber_iso (K : Set ℕ) (rels : List (List Int)) (keep : List Nat) (idx : ℕ → ℕ)
+    (hlive : Live K rels) (hkeep : ∀ k, k ∈ keep ↔ k ∉ K)
+    (hidx : ∀ m (hm : m < keep.length), idx keep[m] = m + 1) :
+    Nonempty (PresentedGroup (PRel K rels) ≃* PresentedGroup (MRel keep.length
+      (rels.map (·.map fun y => if y > 0 then ((idx y.natAbs : Nat) : Int) else -((idx y.natAbs : Nat) : Int))))) := by
+  classical
+  let ren : Int → Int := fun y => if y > 0 then ((idx y.natAbs : Nat) : Int) else -((idx y.natAbs : Nat) : Int)
+  let R := PRel K rels
+  let R' := MRel keep.length (rels.map (·.map ren))
+  have hpos : ∀ k ∈ keep, ∃ m, ∃ hm : m < keep.length, keep[m] = k ∧ idx k = m + 1 := by
+    intro k hk
+    obtain ⟨m, hm, he⟩ := List.getElem_of_mem hk
+    exact ⟨m, hm, he, by rw [← he]; exact hidx m hm⟩
+  -- α
+  let fα : ℕ → PresentedGroup R' := fun k => if k ∈ keep then PresentedGroup.mk R' (FreeGroup.of (idx k)) else 1
+  have hαlet : ∀ y : Int, y ≠ 0 → y.natAbs ∉ K →
+      FreeGroup.lift fα (den [y]) = PresentedGroup.mk R' (den [ren y]) := by
+    intro y hy0 hyK
+    have hk : y.natAbs ∈ keep := (hkeep _).2 hyK
+    obtain ⟨m, _, _, hm⟩ := hpos _ hk
+    rw [den_letter, if_neg hy0]
+    by_cases hp : 0 < y
+    · rw [if_pos hp, FreeGroup.lift_apply_of]
+      show (if y.natAbs ∈ keep then _ else _) = _
+      rw [if_pos hk]
+      show _ = PresentedGroup.mk R' (den [if y > 0 then _ else _])
+      rw [if_pos hp, den_pos _ (by omega)]
+    · rw [if_neg hp, map_inv, FreeGroup.lift_apply_of]
+      show (if y.natAbs ∈ keep then _ else _)⁻¹ = _
+      rw [if_pos hk]
+      show _ = PresentedGroup.mk R' (den [if y > 0 then _ else _])
+      rw [if_neg hp, den_neg _ (by omega), map_inv]
+  have hαword : ∀ w : List Int, (∀ z ∈ w, z ≠ 0 ∧ z.natAbs ∉ K) →
+      FreeGroup.lift fα (den w) = PresentedGroup.mk R' (den (w.map ren)) := by
+    intro w
+    induction w with
+    | nil => intro _; simp [den_nil]
+    | cons y w ih =>
+      intro h
+      rw [List.map_cons, den_cons, den_cons (ren y), map_mul, map_mul,
+        ih (fun z hz => h z (List.mem_cons_of_mem _ hz)),
+        hαlet y (h y List.mem_cons_self).1 (h y List.mem_cons_self).2]
+  have hα : ∀ r ∈ R, FreeGroup.lift fα r = 1 := by
+    rintro r (⟨w, hw, rfl⟩ | ⟨k, hk, rfl⟩)
+    · rw [hαword w (hlive w hw)]
+      exact PresentedGroup.one_of_mem (Or.inl ⟨_, List.mem_map_of_mem hw, rfl⟩)
+    · rw [FreeGroup.lift_apply_of]
+      show (if k ∈ keep then _ else _) = _
+      rw [if_neg (fun h => (hkeep k).1 h hk)]
+  let α : PresentedGroup R →* PresentedGroup R' := PresentedGroup.toGroup hα
+  -- β
+  let fβ : ℕ → PresentedGroup R := fun m =>
+    if 1 ≤ m ∧ m ≤ keep.length then PresentedGroup.mk R (FreeGroup.of (keep.getD (m - 1) 0)) else 1
+  have hβidx : ∀ k ∈ keep, fβ (idx k) = PresentedGroup.mk R (FreeGroup.of k) := by
+    intro k hk
+    obtain ⟨m, hm, he, hi⟩ := hpos k hk
+    show (if 1 ≤ idx k ∧ idx k ≤ keep.length then _ else _) = _
+    rw [hi, if_pos ⟨by omega, by omega⟩]
+    have : keep.getD (m + 1 - 1) 0 = k := by
+      rw [Nat.add_sub_cancel, getD_eq_getElem' _ _ hm, he]
+    rw [this]
+  have hβlet : ∀ y : Int, y ≠ 0 → y.natAbs ∉ K →
+      FreeGroup.lift fβ (den [ren y]) = PresentedGroup.mk R (den [y]) := by
+    intro y hy0 hyK
+    have hk : y.natAbs ∈ keep := (hkeep _).2 hyK
+    obtain ⟨m, _, _, hm⟩ := hpos _ hk
+    rw [den_letter y, if_neg hy0]
+    by_cases hp : 0 < y
+    · show FreeGroup.lift fβ (den [if y > 0 then _ else _]) = _
+      rw [if_pos hp, if_pos hp, den_pos _ (by omega), FreeGroup.lift_apply_of, hβidx _ hk]
+    · show FreeGroup.lift fβ (den [if y > 0 then _ else _]) = _
+      rw [if_neg hp, if_neg hp, den_neg _ (by omega), map_inv, FreeGroup.lift_apply_of, hβidx _ hk, map_inv]
+  have hβword : ∀ w : List Int, (∀ z ∈ w, z ≠ 0 ∧ z.natAbs ∉ K) →
+      FreeGroup.lift fβ (den (w.map ren)) = PresentedGroup.mk R (den w) := by
+    intro w
+    induction w with
+    | nil => intro _; simp [den_nil]
+    | cons y w ih =>
+      intro h
+      rw [List.map_cons, den_cons, den_cons y, map_mul, map_mul,
+        ih (fun z hz => h z (List.mem_cons_of_mem _ hz)),
+        hβlet y (h y List.mem_cons_self).1 (h y List.mem_cons_self).2]
+  have hβ : ∀ r ∈ R', FreeGroup.lift fβ r = 1 := by
+    rintro r (⟨v, hv, rfl⟩ | ⟨m, hm, rfl⟩)
+    · obtain ⟨w, hw, rfl⟩ := List.mem_map.1 hv
+      rw [hβword w (hlive w hw)]
+      exact PresentedGroup.one_of_mem (Or.inl ⟨w, hw, rfl⟩)
+    · rw [FreeGroup.lift_apply_of]
+      show (if 1 ≤ m ∧ m ≤ keep.length then _ else _) = _
+      rw [if_neg (by omega)]
+  let β : PresentedGroup R' →* PresentedGroup R := PresentedGroup.toGroup hβ
+  have h1 : β.comp α = MonoidHom.id _ := by
+    apply PresentedGroup.ext
+    intro k
+    rw [MonoidHom.comp_apply, MonoidHom.id_apply]
+    have : α (PresentedGroup.of k) = fα k := PresentedGroup.toGroup.of hα
+    rw [this]
+    show β (if k ∈ keep then _ else _) = _
+    by_cases hk : k ∈ keep
+    · rw [if_pos hk]
+      show FreeGroup.lift fβ (FreeGroup.of (idx k)) = _
+      rw [FreeGroup.lift_apply_of, hβidx k hk]
+      rfl
+    · rw [if_neg hk, map_one]
+      have hkK : k ∈ K := by
+        by_contra hc
+        exact hk ((hkeep k).2 hc)
+      exact (PresentedGroup.one_of_mem (Or.inr ⟨k, hkK, rfl⟩)).symm
+  have h2 : α.comp β = MonoidHom.id _ := by
+    apply PresentedGroup.ext
+    intro m
+    rw [MonoidHom.comp_apply, MonoidHom.id_apply]
+    have : β (PresentedGroup.of m) = fβ m := PresentedGroup.toGroup.of hβ
+    rw [this]
+    show α (if 1 ≤ m ∧ m ≤ keep.length then _ else _) = _
+    by_cases hm : 1 ≤ m ∧ m ≤ keep.length
+    · rw [if_pos hm]
+      have hlt : m - 1 < keep.length := by omega
+      have hmem : keep.getD (m - 1) 0 ∈ keep := by
+        rw [getD_eq_getElem' _ _ hlt]; exact List.getElem_mem hlt
+      show FreeGroup.lift fα (FreeGroup.of _) = _
+      rw [FreeGroup.lift_apply_of]
+      show (if keep.getD (m - 1) 0 ∈ keep then _ else _) = _
+      rw [if_pos hmem, getD_eq_getElem' _ _ hlt, hidx (m - 1) hlt]
+      have : m - 1 + 1 = m := by omega
+      rw [this]
+      rfl
+    · rw [if_neg hm, map_one]
+      exact (PresentedGroup.one_of_mem (Or.inr ⟨m, by omega, rfl⟩)).symm
+  exact ⟨MonoidHom.toMulEquiv α β h1 h2⟩
+
+/-! ### `simplify` preserves the presented group -/
+
+/-- **`SpecC09.simplify` is a sequence of Tietze moves**: for a presentation whose letters are
+    generators `±1 … ±n`, the simplified presentation presents an isomorphic group -/
+theorem simplify_iso (p : SpecC09.Pres)
+    (hlive : ∀ w ∈ p.rels, ∀ z ∈ w, z ≠ 0 ∧ z.natAbs ≤ p.ngens) :
+    Nonempty (PresentedGroup (MRel p.ngens p.rels) ≃*
+      PresentedGroup (MRel (SpecC09.simplify p).ngens (SpecC09.simplify p).rels)) := by
+  let K0 : Set ℕ := {k | k = 0 ∨ p.ngens < k}
+  have hK0 : goneSet K0 [] = K0 := by
+    unfold goneSet; ext k; simp
+  have hlive0 : Live K0 p.rels := by
+    intro w hw z hz
+    have := hlive w hw z hz
+    refine ⟨this.1, ?_⟩
+    show ¬ (z.natAbs = 0 ∨ p.ngens < z.natAbs)
+    omega
+  have hlive1 : Live (goneSet K0 []) (SpecC09.normRels p.rels) := by
+    rw [hK0]; exact live_normRels hlive0
+  obtain ⟨⟨e2⟩, hlive2⟩ := elimLoop_iso K0 p.ngens (SpecC09.normRels p.rels) [] hlive1
+  set E := SpecC09.elimLoop p.ngens (SpecC09.normRels p.rels) [] with hE
+  let keep := ((List.range p.ngens).map (· + 1)).filter (!E.2.contains ·)
+  let newIdx : Array Nat := keep.zipIdx.foldl
+    (fun (a : Array Nat) (x : Nat × Nat) => a.setIfInBounds x.1 (x.2 + 1)) (Array.replicate (p.ngens + 1) 0)
+  have hmemkeep : ∀ k, k ∈ keep ↔ (1 ≤ k ∧ k ≤ p.ngens) ∧ k ∉ E.2 := by
+    intro k
+    show k ∈ List.filter _ _ ↔ _
+    rw [List.mem_filter, List.mem_map]
+    simp only [List.mem_range, Bool.not_eq_true', List.contains_eq_mem, decide_eq_false_iff_not]
+    constructor
+    · rintro ⟨⟨a, ha, rfl⟩, h2⟩; exact ⟨⟨by omega, by omega⟩, h2⟩
+    · rintro ⟨⟨h1, h2⟩, h3⟩; exact ⟨⟨k - 1, by omega, by omega⟩, h3⟩
+  have hkeep : ∀ k, k ∈ keep ↔ k ∉ goneSet K0 E.2 := by
+    intro k
+    rw [hmemkeep]
+    unfold goneSet
+    show _ ↔ ¬ ((k = 0 ∨ p.ngens < k) ∨ k ∈ E.2)
+    constructor
+    · rintro ⟨⟨h1, h2⟩, h3⟩ (h | h)
+      · omega
+      · exact h3 h
+    · intro h
+      refine ⟨⟨?_, ?_⟩, fun h' => h (Or.inr h')⟩
+      · by_contra hc; exact h (Or.inl (Or.inl (by omega)))
+      · by_contra hc; exact h (Or.inl (Or.inr (by omega)))
+  have hnd : keep.Nodup := by
+    apply List.Nodup.filter
+    exact List.Nodup.map (fun a b h => by simpa using h) List.nodup_range
+  have hidx : ∀ m (hm : m < keep.length), newIdx.getD keep[m] 0 = m + 1 := by
+    intro m hm
+    have := zipIdx_fold_get (fun (a : Array Nat) (x : Nat × Nat) => a.setIfInBounds x.1 (x.2 + 1))
+      (fun _ _ => rfl) keep (Array.replicate (p.ngens + 1) 0) 0 hnd (by
+        intro x hx
+        have := ((hmemkeep x).1 hx).1
+        rw [Array.size_replicate]; omega) m hm
+    simpa using this
+  obtain ⟨e3⟩ := renumber_iso (goneSet K0 E.2) E.1 keep (fun k => newIdx.getD k 0) hlive2 hkeep hidx
+  have hs : SpecC09.simplify p = ⟨keep.length, E.1.map (·.map fun y =>
+      if y > 0 then ((newIdx.getD y.natAbs 0 : Nat) : Int) else -((newIdx.getD y.natAbs 0 : Nat) : Int))⟩ := rfl
+  rw [hs]
+  have e0 : PresentedGroup (MRel p.ngens p.rels) ≃* PresentedGroup (PRel (goneSet K0 []) (SpecC09.normRels p.rels)) :=
+    presentedEquivOfEq (by rw [MRel_eq_PRel, hK0, normRels_ncl])
+  exact ⟨(e0.trans e2).trans e3⟩
+
 end DSymVerif.FGP
